@@ -33,7 +33,16 @@ def share_pool(rng, n_roots):
                 return gen.rleaf(rng, [2, 3], 0.3)
             e = gen.rexpr(rng, budget, [2, 3])
             return e
-        if k < 2:
+        twin = None
+        if k >= 1 and rng.random() < 0.15:
+            # a whole pool member that is == an earlier one but spelled differently (2 against 2.0): whatever is
+            # remembered under a key compared with == hands one of them the other's answer
+            j = rng.randrange(len(flat))
+            if gen.respell(flat[j]) != flat[j]:
+                twin = gen.respell(flat[j])
+        if twin is not None:
+            e = twin
+        elif k < 2:
             e = gen.rexpr(rng, rng.randint(2, 6), [2, 3])
         else:
             h = rng.choice(['Add', 'Mul', 'Minus', 'Divide', 'Power', 'Neg', 'Recip', 'Sin', 'NthPow', 'NthRoot', 'Exp', 'Log'])
@@ -745,7 +754,25 @@ def check_C12(ctx):
         if b.impl[x] != 'ok':
             rep.oracle_fail('point equality/hash law broken: %s' % b.impl[x], b, [x])
     rep.stats.update({'pair_' + k: v for k, v in eqs.items()})
+    used_roundtrip(rep, [e for e, _f, _g, _w, _i, _j, _x in recs[:sizes(tier, 200, 3000)]], rng)
     return rep
+
+
+def used_roundtrip(rep, exprs, rng):
+    """results obtained from expressions that were printed and hashed before (memoised hashes / printed forms carried
+    into rebuilt nodes show here): equal to, hashing like, printing like the results from untouched copies"""
+    b = Batch()
+    idx = []
+    for e in exprs:
+        ids = sx.var_ids(e) or [2]
+        idx.append(b.add('USEDRT %d %s' % (rng.choice(ids), sx.to_sx(e))))
+    for e in gen.rule_patterns(rng, [2, 3], per_pattern=1):
+        idx.append(b.add('USEDRT 2 %s' % sx.to_sx(gen.in_context(rng, e, [2, 3]))))
+    b.run(model=False)
+    for i in idx:
+        rep.stats['used_roundtrip_' + b.impl[i].split(':')[0].split(' ')[0]] += 1
+        if b.impl[i].startswith(('bad', 'ERROR')):
+            rep.oracle_fail('an expression that was printed and hashed before being differentiated: %s' % b.impl[i], b, [i])
 
 
 # ------------------------------------------------------------------ C13
@@ -823,6 +850,7 @@ def check_C13(ctx):
             rep.oracle_fail('two unequal expressions print identically: %s' % b.impl[idx['INJ']], b, [idx['INJ']])
     if b.impl[nums] != 'ok':
         rep.oracle_fail('repr of a finite number does not read back equal: %s' % b.impl[nums], b, [nums])
+    used_roundtrip(rep, [e for e, _idx in recs[:sizes(tier, 150, 3000)]], rng)
     b4 = Batch()
     nrt = b4.add('NAMERT')
     b4.run(model=False)
@@ -1093,7 +1121,16 @@ def check_C18(ctx):
         # the TEXT of the exception too (which coordinate is reported missing, which constraint failed) must not
         # depend on the order in which a set is visited: compared across processes only
         lines += ['MSG EVAL %s %s' % (qs, es), 'MSG REV %s %s' % (qs, es), 'MSG DIFFAT %s %s' % (qs, es),
-                  'MSG DEARLYALL %s %s' % (qs, es), 'MSG FWD %d %s %s' % (v, qs, es)]
+                  'MSG DEARLYALL %s %s' % (qs, es), 'MSG FWD %d %s %s' % (v, qs, es),
+                  'MSG DERIV %s %s' % (qs, es), 'MSG ATNUM %s %s' % (sx.num_sx(1.5), es)]   # refusals of multi-variable expressions
+        if rng.random() < 0.3:
+            # the same point with zeros of either sign, and with integers spelled either way
+            z0 = [(k, 0.0) for k in ids]
+            z1 = [(k, -0.0) for k in ids]
+            i0 = [(k, 2) for k in ids]
+            i1 = [(k, 2.0) for k in ids]
+            for pp in (z1, z0, i0, i1):
+                lines += ['EVAL %s %s' % (sx.point_sx(pp), es), 'REV %s %s' % (sx.point_sx(pp), es)]
         lines.append('LOCHASH %s %s %s' % (sx.point_sx(perms[0]), sx.point_sx(perms[1]), es))
         if len(ids) == 1:
             lines += ['ATNUM %s %s' % (sx.num_sx(1.5), es), 'DERIVNUM %s %s' % (sx.num_sx(1.5), es)]
@@ -1109,6 +1146,15 @@ def check_C18(ctx):
             os.environ.clear()
             os.environ.update(old)
     base = runs[seeds[0]]
+    # the same questions asked in the opposite ORDER in a further process: an answer must not depend on what the
+    # process computed before (a module-level memo keyed by ==, which conflates 0.0 with -0.0 and 2 with 2.0, would show)
+    rev_out = list(reversed(core.run_impl(list(reversed(lines)), hashseed=seeds[0])))
+    for i, l in enumerate(lines):
+        if rev_out[i] != base[i] and not base[i].startswith('ERROR timeout') and not rev_out[i].startswith('ERROR timeout'):
+            rep.oracle_failures.append({'what': 'outcome depends on the order in which a process is asked: %s when asked in order, '
+                                                '%s when asked in reverse order' % (base[i][:120], rev_out[i][:120]),
+                                        'lines': [(l, base[i], model[i])], 'kf': None})
+    rep.stats['processes_reverse_order'] = 1
     rep.cases = len(lines)
     rep.distinct = set(lines)
     digests = {str(s): hashlib.sha256('\n'.join(r).encode()).hexdigest()[:16] for s, r in runs.items()}
